@@ -17,7 +17,7 @@ from .. import core
 from .. import lattice as L
 
 LEVEL = "exploration"
-RETRY = dict(wait_fixed=1, stop_max_attempt_number=3)
+RETRY = dict(wait_exponential_multiplier=1, wait_exponential_max=1, stop_max_attempt_number=3)     # the keys of the library's own default, 1 ms waits
 NAN = float("nan")
 
 
